@@ -60,6 +60,16 @@ VERIF_EXCHANGE(int64_t)
 VERIF_EXCHANGE(int32_t)
 VERIF_EXCHANGE(_Bool)
 
+/* std::swap on plain objects */
+static inline void verif_swap_ptr(void **a, void **b) { void *t = *a; *a = *b; *b = t; }
+#define VERIF_SWAP(T) static inline void verif_swap_##T(T *a, T *b) { T t = *a; *a = *b; *b = t; }
+VERIF_SWAP(uint64_t)
+VERIF_SWAP(size_t)
+VERIF_SWAP(uint32_t)
+VERIF_SWAP(int64_t)
+VERIF_SWAP(int32_t)
+VERIF_SWAP(_Bool)
+
 static inline atomic_u64 atomic_u64_init(uint64_t v) { atomic_u64 a; a.v = v; return a; }
 static inline atomic_b atomic_b_init(_Bool v) { atomic_b a; a.v = v; return a; }
 
